@@ -988,3 +988,214 @@ Proof.
   pose proof (pairs_go_true _ _ _ _ Hg) as F. clear Hg H.
   induction F as [|r o rs os [m Hm] F IH]; constructor; [eapply route_one_meaning; exact Hm|exact IH].
 Qed.
+
+(* ---- which = 12 / 13: request headers and meta templates are arguments the delivery provably ignores ------------------- *)
+Lemma map_fst_pair {A B} (l : list A) (m : B) : map fst (map (fun e => (e, m)) l) = l.
+Proof. induction l as [|x l IH]; cbn [map fst]; [reflexivity|rewrite IH; reflexivity]. Qed.
+
+(* the In calls of a request carry exactly the events of the route model, the status and the class are its *)
+Lemma route_h_events render c tm h :
+  (map fst (fst (fst (route_h render c tm h))), snd (fst (route_h render c tm h)), snd (route_h render c tm h)) =
+  route c (h_req h).
+Proof.
+  unfold route_h. destruct (route c (h_req h)) as [[evs st] cl]. cbn [fst snd]. rewrite map_fst_pair. reflexivity.
+Qed.
+
+Lemma route_h_ingests render c tm h :
+  ingests c (h_req h) = true ->
+  (map fst (fst (fst (route_h render c tm h))), snd (fst (route_h render c tm h))) = serve_bulk (q_reads (h_req h)).
+Proof.
+  intros I. pose proof (route_h_events render c tm h) as E. pose proof (route_ingests _ _ I) as R.
+  destruct (route c (h_req h)) as [[evs st] cl]. cbn [fst] in R. inversion E; subst. exact R.
+Qed.
+
+(* two runs of the same request line and body under different header sets, queries, framings, template sets, renderers
+   (and the meta flag of the configuration) hand over the same events and are answered alike *)
+Lemma route_h_independent render render' c m' tm tm' q hs hs' xq xq' fl fl' :
+  let c' := mkCfg (c_mode c) (c_strat c) (c_hdr c) (c_secrets c) (c_origins c) m' in
+  let a := route_h render c tm (mkHReq q hs xq fl) in
+  let b := route_h render' c' tm' (mkHReq q hs' xq' fl') in
+  map fst (fst (fst a)) = map fst (fst (fst b)) /\ snd (fst a) = snd (fst b) /\ snd a = snd b.
+Proof.
+  intros c' a b.
+  pose proof (route_h_events render c tm (mkHReq q hs xq fl)) as Ea.
+  pose proof (route_h_events render' c' tm' (mkHReq q hs' xq' fl')) as Eb.
+  fold a in Ea. fold b in Eb. cbn [h_req] in Ea, Eb.
+  assert (R : route c' q = route c q) by reflexivity.
+  rewrite R, <- Ea in Eb. inversion Eb. repeat split; congruence.
+Qed.
+
+Lemma hmeta_keys render c tm h : hmeta render c tm h = [] \/ map fst (hmeta render c tm h) = map fst tm.
+Proof.
+  unfold hmeta. destruct (auth c (h_req h)); try (left; reflexivity).
+  right. rewrite map_map. cbn [fst]. reflexivity.
+Qed.
+
+Lemma hmeta_keys_ok render c tm h login :
+  auth c (h_req h) = AuthOk login -> map fst (hmeta render c tm h) = map fst tm.
+Proof. intros A. unfold hmeta. rewrite A. rewrite map_map. reflexivity. Qed.
+
+Lemma ingests_auth c q : ingests c q = true -> exists login, auth c q = AuthOk login.
+Proof.
+  unfold ingests. destruct (auth c q) as [l| |]; cbn [auth_ok]; intros H.
+  - exists l. reflexivity.
+  - rewrite andb_false_r in H. discriminate.
+  - rewrite andb_false_r in H. discriminate.
+Qed.
+
+(* under every header set, template set and renderer: a 200 comes after every line of the body was handed over, and every
+   In call carries one meta value per configured template *)
+Lemma route_h_200 render c tm h calls st cl :
+  route_h render c tm h = (calls, st, cl) -> ingests c (h_req h) = true -> st = 200 ->
+  no_err (q_reads (h_req h)) = true /\
+  map fst calls = split_body (concat (chunks_of (q_reads (h_req h)))) /\
+  Forall (fun cm => map fst (snd cm) = map fst tm) calls.
+Proof.
+  intros R I S. pose proof (route_h_ingests render c tm h I) as E. rewrite R in E. cbn [fst snd] in E. subst st.
+  destruct (http_ok_after_all_in _ _ (eq_sym E)) as [H1 H2]. split; [exact H1|]. split; [exact H2|].
+  destruct (ingests_auth _ _ I) as [login A].
+  unfold route_h in R. destruct (route c (h_req h)) as [[evs st0] cl0]. inversion R; subst.
+  apply Forall_forall. intros cm Hin. apply in_map_iff in Hin as (e & <- & _). cbn [snd].
+  exact (hmeta_keys_ok render c tm h login A).
+Qed.
+
+Lemma route_h_not_ingests render c tm h :
+  ingests c (h_req h) = false -> fst (fst (route_h render c tm h)) = [].
+Proof.
+  intros I. pose proof (route_not_ingests _ _ I) as R. unfold route_h.
+  destruct (route c (h_req h)) as [[evs st] cl]. cbn [fst] in *. subst evs. reflexivity.
+Qed.
+
+Lemma route_h_unauthorised render c tm h :
+  authorised c (h_req h) = false ->
+  fst (fst (route_h render c tm h)) = [] /\ (q_method (h_req h) <> 2 -> snd (fst (route_h render c tm h)) <> 200).
+Proof.
+  intros A. destruct (route_unauthorised _ _ A) as [R1 R2]. unfold route_h.
+  destruct (route c (h_req h)) as [[evs st] cl]. cbn [fst snd] in *. subst evs. split; [reflexivity|exact R2].
+Qed.
+
+(* what the judges of which = 12 / 13 accept for one request *)
+Definition judged (c : rcfg) (q : rreq) (rds : list rd) (evs : list sx) (st : Z) : Prop :=
+  (ingests c q = true ->
+     (st = 200 -> no_err rds = true /\ evs = map SB (split_body (concat (chunks_of rds)))) /\
+     (st <> 200 -> no_err rds = false)) /\
+  (ingests c q = false ->
+     evs = [] /\ (authorised c q = false -> q_method q <> 2 -> st <> 200)).
+
+Lemma route_obs_ok_meaning c q reads rds oevs ost :
+  as_list rd_of_sx reads = Some rds -> route_obs_ok c q reads oevs ost = true ->
+  exists evs, oevs = SL evs /\ judged c q rds evs ost.
+Proof.
+  intros Hr H. unfold route_obs_ok in H. destruct oevs as [?|?|evs]; try discriminate.
+  exists evs. split; [reflexivity|]. split.
+  - intros I. rewrite I in H.
+    destruct (c11_pred_meaning _ _ _ Hr H) as (evs' & st & Ho & H1 & H2). inversion Ho; subst. split; assumption.
+  - intros I. rewrite I in H. apply andb_prop in H as [Hn Hs]. split.
+    + destruct evs; [reflexivity|discriminate].
+    + intros A M S. rewrite A in Hs. cbn [orb] in Hs. apply orb_prop in Hs as [Hs|Hs].
+      * apply Z.eqb_eq in Hs. contradiction.
+      * subst ost. discriminate.
+Qed.
+
+Definition hroute_req_ok (c : rcfg) (r o : sx) : Prop :=
+  exists rq hs xq fl q reads rds evs st x y z,
+    r = SL [rq; hs; SB xq; SZ fl] /\
+    req_of_sx rq = Some (q, reads) /\ as_list rd_of_sx reads = Some rds /\ q_reads q = rds /\
+    o = SL [SL evs; SZ st; x; y; z] /\ judged c q rds evs st.
+
+Lemma hroute_one_meaning c tm r o m : hroute_one c tm r o = Some (m, true) -> hroute_req_ok c r o.
+Proof.
+  unfold hroute_one.
+  destruct r as [?|?|[|rq [|hs [|[?|xq|?] [|[fl|?|?] [|? ?]]]]]]; try discriminate.
+  destruct (req_of_sx rq) as [[q reads]|] eqn:Hq; [|discriminate].
+  destruct (as_list pair_of_sx hs) as [hdrs|]; [|discriminate].
+  destruct (cred_ok (q_cred q) && forallb (hdr_ok c q) hdrs && Z.leb 0 fl && Z.leb fl 2); [|discriminate].
+  destruct (route_h render0 c tm (mkHReq q hdrs xq fl)) as [[calls st0] cl0].
+  pose proof (req_of_sx_reads _ _ _ Hq) as Hr.
+  destruct o as [?|?|[|oevs [|[ost|?|?] [|x [|y [|z [|? ?]]]]]]]; try discriminate.
+  intros H. inversion H as [[Hm Hok]]; clear H Hm.
+  destruct (route_obs_ok_meaning _ _ _ _ _ _ Hr Hok) as (evs & -> & J).
+  exists rq, hs, xq, fl, q, reads, (q_reads q), evs, ost, x, y, z.
+  split; [reflexivity|]. split; [exact Hq|]. split; [exact Hr|]. split; [reflexivity|]. split; [reflexivity|exact J].
+Qed.
+
+Lemma hroute_verdict_sound case obs :
+  (c11_hroute_run case obs = Agree \/ exists m, c11_hroute_run case obs = Differ m) ->
+  exists cfg c tms tm reqs outs,
+    case = SL [cfg; tms; SL reqs] /\ cfg_of_sx cfg = Some c /\ tmpls_of_sx tms = Some tm /\ obs = SL outs /\
+    Forall2 (hroute_req_ok c) reqs outs.
+Proof.
+  intros H. unfold c11_hroute_run in H.
+  destruct case as [?|?|[|cfg [|tms [|reqs [|? ?]]]]]; try (destruct H as [H|[m H]]; discriminate).
+  destruct (cfg_of_sx cfg) as [c|] eqn:Hc; [|destruct H as [H|[m H]]; discriminate].
+  destruct (tmpls_of_sx tms) as [tm|] eqn:Ht; [|destruct H as [H|[m H]]; discriminate].
+  destruct (cfg_ok c && Bool.eqb (c_meta c) (negb (is_nil tm))); [|destruct H as [H|[m H]]; discriminate].
+  unfold pairs_run in H.
+  destruct reqs as [?|?|reqs]; try (destruct H as [H|[m H]]; discriminate).
+  destruct obs as [?|?|outs]; try (destruct H as [H|[m H]]; discriminate).
+  destruct (pairs_go (hroute_one c tm) reqs outs) as [[ms ok]|] eqn:Hg; [|destruct H as [H|[m H]]; discriminate].
+  destruct ok; [|destruct H as [H|[m H]]; discriminate].
+  exists cfg, c, tms, tm, reqs, outs. repeat split; try assumption.
+  pose proof (pairs_go_true _ _ _ _ Hg) as F. clear Hg H.
+  induction F as [|r o rs os [m Hm] F IH]; constructor; [eapply hroute_one_meaning; exact Hm|exact IH].
+Qed.
+
+(* the own listener: a body is a list of byte strings, no read of it fails *)
+Lemma all_bytes_no_err ws : forall rds, all_bytes ws = true -> opt_map rd_of_sx ws = Some rds -> no_err rds = true.
+Proof.
+  induction ws as [|w ws IH]; intros rds A H; cbn [opt_map] in H.
+  - inversion H. reflexivity.
+  - unfold all_bytes in A. cbn [forallb] in A. apply andb_prop in A as [Aw A].
+    destruct w as [?|b|?]; try discriminate. cbn [rd_of_sx] in H.
+    destruct (opt_map rd_of_sx ws) as [rds'|] eqn:E; [|discriminate]. inversion H; subst.
+    cbn [no_err forallb]. exact (IH rds' A eq_refl).
+Qed.
+
+Lemma wire_ingests tm target gz rds : ingests (wire_cfg tm) (wire_req target gz rds) = true.
+Proof. reflexivity. Qed.
+
+Definition hwire_req_ok (r o : sx) : Prop :=
+  exists gz piece ws hs target odd rds evs x,
+    r = SL [SZ gz; SZ piece; SL ws; hs; SB target; SZ odd] /\ as_list rd_of_sx (SL ws) = Some rds /\
+    no_err rds = true /\ o = SL [SL evs; SZ 200; x] /\ evs = map SB (split_body (concat (chunks_of rds))).
+
+Lemma hwire_one_meaning tm r o m : hwire_one tm r o = Some (m, true) -> hwire_req_ok r o.
+Proof.
+  unfold hwire_one.
+  destruct r as [?|?|[|[gz|?|?] [|[piece|?|?] [|[?|?|ws] [|hs [|[?|target|?] [|[odd|?|?] [|? ?]]]]]]]]; try discriminate.
+  destruct (as_list rd_of_sx (SL ws)) as [rds|] eqn:Hr; [|discriminate].
+  destruct (as_list pair_of_sx hs) as [hdrs|]; [|discriminate].
+  destruct ((Z.eqb gz 0 || Z.eqb gz 1) && all_bytes ws) eqn:G; [|cbn [andb]; discriminate].
+  apply andb_prop in G as [_ Ab].
+  cbn [andb].
+  destruct (forallb _ hdrs && Z.leb 0 odd && Z.leb odd 6); [|discriminate].
+  destruct (route_h render0 (wire_cfg tm) tm _) as [[calls st0] cl0].
+  destruct o as [?|?|[|oevs [|[ost|?|?] [|x [|? ?]]]]]; try discriminate.
+  intros H. inversion H as [[Hm Hok]]; clear H Hm.
+  destruct (route_obs_ok_meaning _ _ _ _ _ _ Hr Hok) as (evs & -> & [J _]).
+  specialize (J (wire_ingests tm target (Z.eqb gz 1) rds)). destruct J as [J1 J2].
+  assert (N : no_err rds = true) by (exact (all_bytes_no_err ws rds Ab Hr)).
+  assert (S : ost = 200).
+  { destruct (Z.eq_dec ost 200) as [e|ne]; [exact e|]. rewrite (J2 ne) in N. discriminate. }
+  subst ost. destruct (J1 eq_refl) as [_ Je].
+  exists gz, piece, ws, hs, target, odd, rds, evs, x. repeat split; assumption.
+Qed.
+
+Lemma hwire_verdict_sound case obs :
+  (c11_hwire_run case obs = Agree \/ exists m, c11_hwire_run case obs = Differ m) ->
+  exists cfg tms tm reqs outs,
+    case = SL [SL cfg; tms; SL reqs] /\ tmpls_of_sx tms = Some tm /\ obs = SL outs /\ Forall2 hwire_req_ok reqs outs.
+Proof.
+  intros H. unfold c11_hwire_run in H.
+  destruct case as [?|?|[|[?|?|cfg] [|tms [|reqs [|? ?]]]]]; try (destruct H as [H|[m H]]; discriminate).
+  destruct (tmpls_of_sx tms) as [tm|] eqn:Ht; [|destruct H as [H|[m H]]; discriminate].
+  destruct (all_ints cfg); [|destruct H as [H|[m H]]; discriminate].
+  unfold pairs_run in H.
+  destruct reqs as [?|?|reqs]; try (destruct H as [H|[m H]]; discriminate).
+  destruct obs as [?|?|outs]; try (destruct H as [H|[m H]]; discriminate).
+  destruct (pairs_go (hwire_one tm) reqs outs) as [[ms ok]|] eqn:Hg; [|destruct H as [H|[m H]]; discriminate].
+  destruct ok; [|destruct H as [H|[m H]]; discriminate].
+  exists cfg, tms, tm, reqs, outs. repeat split; try assumption.
+  pose proof (pairs_go_true _ _ _ _ Hg) as F. clear Hg H.
+  induction F as [|r o rs os [m Hm] F IH]; constructor; [eapply hwire_one_meaning; exact Hm|exact IH].
+Qed.
